@@ -170,10 +170,13 @@ func (s *immutState) step(fn *ssa.Function) {
 				if s.derived[v.X] {
 					s.mark(v)
 				}
-				if a := allocRoot(v.X); a != nil && s.allocT[a] {
-					s.mark(v)
-				}
-				if f, x := fieldOfAddr(v.X); f != nil && isInterp(x.Type()) && s.fieldT[f.Name()] {
+				if f, x := fieldOfAddr(v.X); f != nil && isInterp(x.Type()) {
+					// the interpreter's own fields are tracked one by one (also while it is still a local being
+					// filled in by its constructor)
+					if s.fieldT[f.Name()] {
+						s.mark(v)
+					}
+				} else if a := allocRoot(v.X); a != nil && s.allocT[a] {
 					s.mark(v)
 				}
 				if g, ok := v.X.(*ssa.Global); ok && s.globalsT[g] {
@@ -208,15 +211,14 @@ func (s *immutState) step(fn *ssa.Function) {
 			}
 		case *ssa.Store:
 			if s.derived[v.Val] {
-				if a := allocRoot(v.Addr); a != nil {
-					if !s.allocT[a] {
-						s.allocT[a] = true
-						s.changed = true
-					}
-				}
 				if f, x := fieldOfAddr(v.Addr); f != nil && isInterp(x.Type()) {
 					if !s.fieldT[f.Name()] {
 						s.fieldT[f.Name()] = true
+						s.changed = true
+					}
+				} else if a := allocRoot(v.Addr); a != nil {
+					if !s.allocT[a] {
+						s.allocT[a] = true
 						s.changed = true
 					}
 				}
